@@ -126,6 +126,9 @@ func genHostileCase(t *rapid.T) HostileCase {
 		Medias:       rapid.IntRange(1, 3).Draw(t, "medias"),
 		Query:        rapid.IntRange(0, 3).Draw(t, "query") == 0,
 	}
+	if c.Proto == "udp" || c.Proto == "auto" {
+		c.OddPortBusy = rapid.IntRange(0, 4).Draw(t, "odd_port_busy") == 0
+	}
 	record := rapid.IntRange(0, 3).Draw(t, "record") == 0
 	nr := rapid.IntRange(1, 4).Draw(t, "nrules")
 	for i := 0; i < nr; i++ {
@@ -150,6 +153,9 @@ func genHostileCase(t *rapid.T) HostileCase {
 				r.N = rapid.IntRange(0, 7).Draw(t, "tunnel_n")
 			}
 			c.Rules = append(c.Rules, r)
+		} else if c.Tunnel == "http" && rapid.Bool().Draw(t, "tunnel_rst") {
+			// the GET channel is reset after a few responses; the POST channel stays open on the server's side
+			c.Rules = append(c.Rules, SrvRule{Method: "TUNNEL-RST", Nth: 0, Kind: "rst", N: rapid.IntRange(0, 4).Draw(t, "rst_after")})
 		}
 	}
 	if !record && rapid.IntRange(0, 2).Draw(t, "paired") == 0 {
